@@ -16,6 +16,7 @@ import Gozod.Model.FormatSpec
 import Gozod.Model.FormatSpecV6
 import Gozod.Model.FormatSpecV6E
 import Gozod.Model.FormatSpecDT
+import Gozod.Model.FormatSpecTime
 import Gozod.Model.GoParsers
 import Gozod.Model.GoNetip
 import Gozod.Gen.Regexes
@@ -136,7 +137,8 @@ def formats : List Format := [
   ⟨"e164", Fmt.e164.run, Fmt.e164.run⟩,
   ⟨"macdot", (Fmt.mac 46).run, (Fmt.mac 46).run⟩,
   ⟨"uuidp6", (Fmt.uuid (some 6)).run, (Fmt.uuid (some 6)).run⟩,
-  ⟨"uuidp7", (Fmt.uuid (some 7)).run, (Fmt.uuid (some 7)).run⟩]
+  ⟨"uuidp7", (Fmt.uuid (some 7)).run, (Fmt.uuid (some 7)).run⟩,
+  ⟨"isotime", (Fmt.isoTimeOpt .any).run, (Fmt.isoTimeOpt .any).run⟩]
   ++ optionFormats
 
 structure Live where
@@ -313,7 +315,8 @@ def mkCert (S E : Spec) (specText exclText reText jobName fmtName : String) (r0 
       else s!"buildD {reText} [" ++ ", ".intercalate (parents.toList.map fun (i, c) => s!"({i},{c})") ++ "]"
     let tTxt := "[" ++ ", ".intercalate (tbl.toList.map fun row => "[" ++ ",".intercalate (row.toList.map toString) ++ "]") ++ "]"
     let tree := buildTree S E sorted 0 sorted.size
-    let specModule := if (exclText.splitOn "QuadDefect").length > 1 then "Gozod.Model.FormatSpecV6E" else if (specText.splitOn "dtTail").length > 1 then "Gozod.Model.FormatSpecDT" else if (specText.splitOn "ipv6").length > 1 || (specText.splitOn "cidrv6").length > 1 then "Gozod.Model.FormatSpecV6"
+    let specModule := if (exclText.splitOn "QuadDefect").length > 1 then "Gozod.Model.FormatSpecV6E"
+      else if (specText.splitOn "isoTimeC").length > 1 then "Gozod.Model.FormatSpecTime" else if (specText.splitOn "dtTail").length > 1 then "Gozod.Model.FormatSpecDT" else if (specText.splitOn "ipv6").length > 1 || (specText.splitOn "cidrv6").length > 1 then "Gozod.Model.FormatSpecV6"
       else "Gozod.Model.FormatSpec"
     let lText := if L == Fmt.nonHexLetters then "Fmt.nonHexLetters" else ppNats L
     -- the checker wants every `L` byte to kill every derivative
@@ -392,6 +395,10 @@ def jobs : List Job := [
   -- without '%', with '.': RFC 4291 outside the dotted-quad defect region
   jobRE "ipv6_dot" Fmt.ipv6Q Fmt.ipv6QuadDefect "Fmt.ipv6Q" "Fmt.ipv6QuadDefect" "pat_ipv6" (lookupRe "ipv6" 0 true) [37] Fmt.nonHexLetters,
   jobRE "cidrv6_dot" Fmt.cidrv6Q Fmt.cidrv6QuadDefect "Fmt.cidrv6Q" "Fmt.cidrv6QuadDefect" "pat_cidrv6" (lookupRe "cidrv6" 0 true) [37] Fmt.nonHexLetters,
+  -- the default IsoTime(): exported pattern; validator's own pattern (full: differs by the ',' fraction; partial: outside it)
+  job "isotime_pat" (Fmt.isoTimeOpt .any) "Fmt.isoTimeOpt .any" "pat_isotime" (lookupRe "isotime" 0 true),
+  job "isotime" (Fmt.isoTimeOpt .any) "Fmt.isoTimeOpt .any" "val_isotime" (lookupRe "isotime" 0 false),
+  jobE "isotime_partial" Fmt.isoTimeC Fmt.isoTimeComma "Fmt.isoTimeC" "Fmt.isoTimeComma" "val_isotime" (lookupRe "isotime" 0 false),
   jobE "isodatetime_partial" (Fmt.isoDateTimeQ false) Fmt.isoDateTimeNoSecQ "Fmt.isoDateTimeQ false" "Fmt.isoDateTimeNoSecQ" "pat_isodatetime" (lookupRe "isodatetime" 0 true),
   jobE "base64url_partial" Fmt.base64url Fmt.base64urlBadLen "Fmt.base64url" "Fmt.base64urlBadLen" "pat_base64url" (lookupRe "base64url" 0 true)]
 
